@@ -1,4 +1,7 @@
 mod term;
+mod c29;
+mod c41;
+mod c17;
 mod c19;
 mod c20;
 mod c16;
@@ -37,6 +40,7 @@ fn main() {
     if args.len() >= 5 && args[1] == "CRASH-child" { crash::child(&args[2..]); return; }
     if args.len() >= 3 && args[1] == "C02-trace" { let d = tempfile::tempdir().unwrap(); for (i, t) in crash::protocol_traces(d.path(), &args[2]).iter().enumerate() { println!("{} {:?}", i, t); } return; }
     if args.len() >= 8 && args[1] == "C20-child" { c20::child(&args[2..]); return; }
+    if args.len() >= 3 && args[1] == "C17-child" { c17::child(&args[2..]); return; }
     if args.len() < 5 {
         eprintln!("usage: mvharness <property> <seed> <n> <outfile> [extra...]");
         std::process::exit(2);
@@ -78,6 +82,9 @@ fn main() {
         "C16" => c16::run(seed, n, _extra.first().map(|s| s.as_str()).unwrap_or("quick"), &mut out),
         "C20" => c20::run(seed, n, _extra.first().map(|s| s.as_str()).unwrap_or("quick"), &mut out),
         "C19" => c19::run(seed, n, &mut out),
+        "C17" => c17::run(seed, n, &mut out),
+        "C41" => c41::run(seed, n, _extra.first().map(|s| s.as_str()).unwrap_or("quick"), &mut out),
+        "C29" => c29::run(seed, n, &mut out),
         _ => { eprintln!("unknown property {}", prop); std::process::exit(2); }
     }
 }
